@@ -486,6 +486,34 @@ def _i_cli_wif_decode(w, style):
     return (bytes.fromhex(d["version"]), d["network"], d["addr_type"], bytes.fromhex(d["key"]), bytes.fromhex(d["data"]))
 
 
+def _i_wif_decode_seq(ws, mode):
+    """one process, dict mode: mode 0 = keep every returned dict and read them all AFTER the last decode;
+    mode 1 = read each result at once, then wreck the returned dict (the caller owns what it was given).
+    Self-contained: whatever was wrecked is put back before returning, so a replay of this one case in a fresh
+    process shows the same thing as the run inside a long session."""
+    import bits
+    kept, wrecked = [], []
+    try:
+        for w in ws:
+            d = bits.wif_decode(w, return_dict=True)
+            if mode == 1:
+                kept.append(_dict_tuple(d))
+                wrecked.append((d, dict(d)))
+                d.clear()
+                d["network"] = "nonsense"
+            else:
+                kept.append(d)
+        return [k if isinstance(k, tuple) else _dict_tuple(k) for k in kept]
+    finally:
+        for d, items in reversed(wrecked):
+            d.clear()
+            d.update(items)
+
+
+def _dict_tuple(d):
+    return (bytes.fromhex(d["version"]), d["network"], d["addr_type"], bytes.fromhex(d["key"]), bytes.fromhex(d["data"]))
+
+
 IMPL = {
     "pubkey": lambda x, y, c: _u().pubkey(x, y, compressed=c),
     "point": _i_point,
@@ -504,6 +532,7 @@ IMPL = {
     "der_encode_key": _i_der_encode_key,
     "pem_decode_key": _i_pem_decode_key,
     "pubkey_from_pem": _i_pubkey_from_pem,
+    "wif_decode_seq": _i_wif_decode_seq,
     "cli_pubkey": _i_cli_pubkey,
     "cli_wif_encode": _i_cli_wif_encode,
     "cli_wif_decode": _i_cli_wif_decode,
@@ -1083,6 +1112,184 @@ def _gen_cli(rng, T, out, keys, pts):
         out.append(case(cls, "cli_wif_decode", w, j % 4, strict=True))
 
 
+def cube_root(c):
+    """a cube root of c mod the secp256k1 prime (p = 7 mod 9), or None"""
+    p = SECP["p"]
+    r = pow(c, (p + 2) // 9, p)
+    return r if pow(r, 3, p) == c % p else None
+
+
+# byte patterns the ASN.1 / SEC1 / WIF decoders dispatch on, as they could occur at the START of key material
+def _lookalike_prefixes(L):
+    """prefixes for an L-byte field that look like a TLV header covering exactly / nearly the rest of the field"""
+    r = L - 2
+    return [bytes([0x30, r]), bytes([0x30, r - 1]), bytes([0x30, r + 1]), bytes([0x30, 0x00]), bytes([0x30, 0x80]),
+            bytes([0x30, 0x81, r - 1]), bytes([0x30, 0x82, 0x00, r - 2]), bytes([0x31, r]), bytes([0x10, r]),
+            bytes([0x02, r]), bytes([0x02, 0x01, 0x01]), bytes([0x04, r]), bytes([0x04, 0x20]), bytes([0x03, r, 0x00]),
+            bytes([0x06, r]), bytes([0x06, 0x05, 0x2B, 0x81, 0x04, 0x00, 0x0A]), bytes([0x06, 0x07, 0x2A, 0x86, 0x48, 0xCE, 0x3D, 0x02, 0x01]),
+            bytes([0xA0, r]), bytes([0xA0, 0x07, 0x06, 0x05]), bytes([0xA1, r]), bytes([0xA1, 0x44, 0x03, 0x42, 0x00, 0x04]),
+            bytes([0x05, 0x00]), bytes([0x0C, r]), bytes([0x00, 0x30, r - 1]), bytes([0x00, 0x04]), bytes([0x01]),
+            bytes([0x81, r]), bytes([0x82, 0x00, r - 1]), bytes([0x80, r]), bytes([0x24, r]), bytes([0x2D, 0x2D, 0x2D, 0x2D, 0x2D]),
+            bytes([0x02]), bytes([0x03]), bytes([0x04]), bytes([0x80]), bytes([0xEF])]
+
+
+def _fill_tlvs(rng, n):
+    """exactly n bytes that parse as a chain of complete primitive TLVs"""
+    out = b""
+    while n - len(out) >= 2:
+        room = n - len(out) - 2
+        L = room if room < 4 or rng.random() < 0.4 else rng.randrange(0, room - 1)
+        if n - len(out) - 2 - L == 1:
+            L += 1 if L < room else -1
+        out += bytes([rng.choice([2, 4, 5, 0x0C, 3]), L]) + bytes(rng.randrange(256) for _ in range(L))
+    return out + b"\0" * (n - len(out))
+
+
+def _lookalike_fields(rng, L, T):
+    """L-byte strings that look like ASN.1: header + random rest, and header + a well-formed TLV chain"""
+    out = []
+    for pre in _lookalike_prefixes(L):
+        rest = L - len(pre)
+        if rest < 0:
+            continue
+        out.append(pre + bytes(rng.randrange(256) for _ in range(rest)))
+        if pre[0] in (0x30, 0x31, 0x10, 0xA0, 0xA1, 0x24, 0x04, 0x02, 0x00) and (T or len(pre) <= 3):
+            out.append(pre + _fill_tlvs(rng, rest))
+    return out
+
+
+def _gen_lookalike(rng, T, out, keys, pts):
+    """key / coordinate BYTES that look like structure to the decoder that carries them"""
+    n, p = SECP["n"], SECP["p"]
+    x0, y0 = pts[0]
+    X0, Y0 = x0.to_bytes(32, "big"), y0.to_bytes(32, "big")
+    k0 = keys[0].to_bytes(32, "big")
+    # --- private keys (the OCTET STRING of RFC 5915): decoder side on RFC-built (= OpenSSL-identical) documents
+    priv = [f for f in _lookalike_fields(rng, 32, T) if 0 < int.from_bytes(f, "big") < n]
+    for j, kb in enumerate(priv):
+        pub = ref_sec1_encode(*secp_point(int.from_bytes(kb, "big")), False)
+        pem = ref_pem(ref_der_priv(kb, pub), b"EC PRIVATE KEY")
+        out.append(case("lookalike-priv-key-decode", "pem_decode_key", pem, strict=True))
+        out.append(case("lookalike-priv-key-decode", "pubkey_from_pem", pem, strict=True))
+        out.append(case("lookalike-priv-key-parse", "parse_asn1", ref_der_priv(kb, pub), strict=True))
+        if T or j % 9 == 0:       # k.G in the implementation is slow: a few through the encoder as well
+            out.append(case("lookalike-priv-key-encode", "pem_encode_key", 0, kb, strict=True))
+        if T or j % 3 == 0:
+            for i, ty in enumerate(WIF_TYPES[: (8 if T else 2)]):
+                w = ref_b58check(bytes([0x80 + i]) + kb + (b"\x01" if j % 2 else b""))
+                out.append(case("lookalike-key-wif", "wif_decode_full", w, strict=True))
+            out.append(case("lookalike-key-wif", "wif_encode", 0, kb, "p2pkh", "mainnet", b"\x01" * (j % 2), strict=True))
+    # --- public keys: coordinates that look like structure, as valid curve points
+    lookX, lookY = [], []
+    for f in _lookalike_fields(rng, 32, T):
+        x = int.from_bytes(f, "big")
+        for _ in range(64):                      # keep the leading bytes, walk the low bytes until x is an abscissa
+            if x < p and ref_roots(0, x):
+                lookX.append((x, ref_roots(0, x)[rng.randrange(2)]))
+                break
+            x = (x & ~0xFFFF) | rng.randrange(1 << 16)
+        y = int.from_bytes(f, "big")
+        for _ in range(64):
+            if 0 < y < p:
+                xr = cube_root((y * y - 7) % p)
+                if xr is not None:
+                    lookY.append((xr, y))
+                    break
+            y = (y & ~0xFFFF) | rng.randrange(1 << 16)
+    for cls, lst in (("lookalike-X", lookX), ("lookalike-Y", lookY)):
+        for j, (x, y) in enumerate(lst):
+            assert ref_on_curve(0, x, y)
+            for comp in (True, False):
+                if cls == "lookalike-Y" and comp:
+                    continue
+                e = ref_sec1_encode(x, y, comp)
+                _sec1_cases(out, 0, e, cls + "-sec1")
+                out.append(case(cls + "-pub-pem-encode", "pem_encode_key", 0, e, strict=True))
+                pem = ref_pem(ref_der_pub(e), b"PUBLIC KEY")
+                out.append(case(cls + "-pub-pem-decode", "pem_decode_key", pem, strict=True))
+                out.append(case(cls + "-pub-pem-decode", "pubkey_from_pem", pem, strict=True))
+                out.append(case(cls + "-pub-parse", "parse_asn1", ref_der_pub(e), strict=True))
+                if T or j % 4 == 0:
+                    out.append(case(cls + "-cli", "cli_pubkey", 0, e, not comp, "hex", "pem" if j % 8 == 0 else "hex", False, strict=True))
+            # the public-key field of a PRIVATE document (the decoder does not tie it to the key)
+            pem = ref_pem(ref_der_priv(k0, ref_sec1_encode(x, y, False)), b"EC PRIVATE KEY")
+            out.append(case(cls + "-in-priv-decode", "pem_decode_key", pem, strict=True))
+            out.append(case(cls + "-in-priv-decode", "pubkey_from_pem", pem, strict=True))
+    # the encoder does not validate public keys: every pattern at the start of X and of Y, no curve needed
+    for f in _lookalike_fields(rng, 32, T):
+        for e in (b"\x04" + f + Y0, b"\x04" + X0 + f, bytes([2]) + f):
+            out.append(case("lookalike-pub-unvalidated", "pem_encode_key", 0, e, strict=True))
+            out.append(case("lookalike-pub-unvalidated", "pem_decode_key", ref_pem(ref_der_pub(e), b"PUBLIC KEY"), strict=True))
+    # whole BIT STRING / OCTET STRING contents (without the leading 00 / with it) that are complete DER
+    for L in (33, 34, 65, 66):
+        for f in _lookalike_fields(rng, L, T)[: (None if T else 16)]:
+            if L in (33, 65):
+                out.append(case("lookalike-whole-pubkey", "pem_decode_key", ref_pem(ref_der_pub(f), b"PUBLIC KEY"), strict=True))
+                out.append(case("lookalike-whole-pubkey", "pem_decode_key", ref_pem(ref_der_priv(k0, f) if L == 65 else ref_der_pub(f), b"EC PRIVATE KEY"), strict=True))
+                _sec1_cases(out, 0, f, "lookalike-whole-sec1")
+    # --- plain ASN.1: primitive values whose CONTENT is complete DER (encapsulation is never followed)
+    inner = [_enc_tree(_der_sig(rng.randrange(1, n), rng.randrange(1, n))), b"\x30\x00", b"\x30\x03\x02\x01\x05", b"\x02\x01\x05",
+             b"\x04\x02\x30\x00", b"\x06\x05" + OID_K1, b"\xa0\x03\x02\x01\x05", b"\x05\x00", ref_der_pub(ref_sec1_encode(x0, y0, True))[:60]]
+    for d in inner:
+        for tag in (0x04, 0x02, 0x03, 0x0C, 0x05, 0x80, 0x81, 0x13, 0x16):
+            body = (b"\0" + d) if tag == 0x03 and rng.random() < 0.5 else d
+            if len(body) < 250:
+                out.append(case("asn1-parse-encapsulated-der", "parse_asn1", bytes([tag, len(body)]) + body, strict=True))
+                out.append(case("asn1-parse-encapsulated-der", "parse_asn1", bytes([0x30, len(body) + 2, tag, len(body)]) + body, strict=True))
+        out.append(case("asn1-encode-encapsulated-der", "encode_node", _prim(4, d), strict=True))
+        out.append(case("asn1-encode-encapsulated-der", "encode_node", _prim(2, d), strict=True))
+    # DER signatures whose integers look like structure
+    for f in _lookalike_fields(rng, 32, T)[: (None if T else 24)]:
+        r = int.from_bytes(f, "big")
+        if 0 < r < n:
+            t = _der_sig(r, rng.randrange(1, n)) if rng.random() < 0.5 else _der_sig(rng.randrange(1, n), r)
+            out.append(case("asn1-der-sig-lookalike", "encode_node", t, strict=True))
+            out.append(case("asn1-der-sig-lookalike", "parse_asn1", _enc_tree(t), strict=True))
+    # --- WIF: key bytes / suffixes that look like version bytes, compression flags, checksums
+    wl = []
+    for kb in (b"\x80" + k0[1:], b"\xef" + k0[1:], k0[:31] + b"\x01", b"\x80" + k0[1:31] + b"\x01", b"\x01" * 32, b"\x00" * 31 + b"\x01",
+               b"\x00" * 30 + b"\x01\x01", b"\x80" * 32):
+        for sfx in (b"", b"\x01", b"\x01\x01", b"\x80", kb[:4], _h4(b"\x80" + kb)):
+            for net, ty in (("mainnet", "p2pkh"), ("regtest", "p2wpkh")):
+                out.append(case("lookalike-wif", "wif_encode", 0, kb, ty, net, sfx, strict=True))
+                w = ref_b58check(bytes([WIF_BASE[net] + WIF_TYPES.index(ty)]) + kb + sfx)
+                out.append(case("lookalike-wif", "wif_decode_full", w, strict=True))
+                wl.append(w)
+    return wl
+
+
+def _gen_wif_seq(rng, T, out, keys, extra):
+    """sequences of dict-mode decodes in ONE process: a result must not change after it was returned, and what the
+    caller does to a returned dict must not leak into later decodes"""
+    kb = [k.to_bytes(32, "big") for k in keys[:12]]
+
+    def w(v, k, s=b""):
+        return ref_b58check(bytes([v]) + k + s)
+    seqs = []
+    for v in sorted(WIF_VERSIONS):
+        # same version byte, different key and suffix
+        seqs.append([w(v, kb[0]), w(v, kb[1], b"\x01")])
+        seqs.append([w(v, kb[2], b"\x01\x02"), w(v, kb[3]), w(v, kb[2], b"\x01\x02"), w(v, kb[4], bytes(40))])
+    vs = sorted(WIF_VERSIONS)
+    for _ in range(60 if T else 12):
+        # mixed versions, repeats, a multisig-like list of sender keys
+        m = rng.randrange(2, 9)
+        pool = [rng.choice(vs) for _ in range(rng.randrange(1, 4))]
+        seqs.append([w(rng.choice(pool), rng.choice(kb), bytes(rng.randrange(256) for _ in range(rng.choice([0, 0, 1, 34])))) for _ in range(m)])
+    seqs.append([w(0x84, k, b"\x52") for k in kb[:5]])                       # five multisig sender keys
+    seqs.append([w(0x80, kb[0])])
+    seqs.append([w(0x80, kb[0]), w(0x80, kb[0])])
+    seqs.append([w(0x80, kb[0]), w(0xEF, kb[0]), w(0x80, kb[1])])
+    seqs.append([w(0x80, kb[0]), w(0x80, kb[1])[:-1] + b"1", w(0x80, kb[2])])    # a refusal in the middle
+    seqs.append([w(0x80, kb[0]), w(0x7F, kb[1])])                            # unknown version after a good one
+    seqs.append([])
+    if extra:
+        seqs.append(extra[:6])
+    for sq in seqs:
+        for mode in (0, 1):
+            out.append(case("wif-seq-%s" % ("keep" if mode == 0 else "caller-edits"), "wif_decode_seq", sq, mode, strict=True))
+
+
 _LAST = {}
 
 
@@ -1096,6 +1303,8 @@ def gen_cases(rng, tier):
     _gen_asn1(rng, T, out, keys, pts)
     _gen_pem(rng, T, out, keys, pts)
     _gen_cli(rng, T, out, keys, pts)
+    wl = _gen_lookalike(rng, T, out, keys, pts)
+    _gen_wif_seq(rng, T, out, keys, wl)
     _LAST["cases"] = out
     _LAST["keys"] = keys
     _LAST["pts"] = pts
@@ -1104,6 +1313,13 @@ def gen_cases(rng, tier):
 
 def shrink(c):
     a = c["args"]
+    if c["op"] == "wif_decode_seq":
+        ws = a[0]
+        for i in range(len(ws)):
+            c2 = dict(c)
+            c2["args"] = [ws[:i] + ws[i + 1:], a[1]]
+            yield c2
+        return
     idx = [i for i, v in enumerate(a) if isinstance(v, (bytes, bytearray))]
     if not idx or c["op"] in ("pem_encode_key", "der_encode_key", "wif_encode", "encode_pem", "cli_wif_encode"):
         return
@@ -1230,6 +1446,64 @@ def prop_oracle(c):
                 return _openssl_pub(key)
             return None
         return None if r[0] == "err" else "pem_encode_key accepted %d bytes" % len(key)
+    if op in ("pem_decode_key", "parse_asn1") or (op == "pubkey_from_pem"):
+        doc = a[0]
+        der = doc
+        if op != "parse_asn1":
+            lines = doc.split(b"\n")
+            if len(lines) < 4 or lines[-1] != b"" or not lines[0].startswith(b"-----BEGIN "):
+                return None
+            try:
+                der = base64.b64decode(b"".join(lines[1:-2]), validate=True)
+            except Exception:
+                return None
+            if doc != ref_pem(der, lines[0][11:-5]):
+                return None
+        kind = None
+        if len(der) == 118 and der == ref_der_priv(der[7:39], der[53:118]):
+            kind, key, pub = "priv", der[7:39], der[53:118]
+        elif len(der) in (56, 88) and der == ref_der_pub(der[23:]):
+            kind, pub = "pub", der[23:]
+        if kind is None:
+            return None                      # not an RFC 5915 / RFC 5480 secp256k1 key document: no literal clause
+        if op == "pem_decode_key":
+            want = (key, pub) if kind == "priv" else (pub,)
+            r = _try(u.pem_decode_key, doc)
+            if r[0] != "ok" or r[1] != want:
+                return "pem_decode_key of the %s key document of key material %s returned %r, expected %r" % (
+                    "private" if kind == "priv" else "public", (key if kind == "priv" else pub).hex(), r, want)
+            return None
+        if op == "pubkey_from_pem":
+            if kind != "priv":
+                return None
+            r = _try(u.pubkey_from_pem, doc)
+            return None if r == ("ok", pub) else "pubkey_from_pem(private key document) returned %r, expected %r" % (r, pub)
+        oid_k1, oid_ec = _t(6, False, 0, 5, "id-ansip256k1"), _t(6, False, 0, 7, "id-ecPublicKey")
+        if kind == "priv":
+            want = _t(0x10, True, 0, 116, [_prim(2, b"\x01"), _prim(4, key), _t(0, True, 2, 7, [oid_k1]),
+                                           _t(1, True, 2, 68, [_prim(3, b"\0" + pub)])])
+        else:
+            want = _t(0x10, True, 0, len(der) - 2, [_t(0x10, True, 0, 16, [oid_ec, oid_k1]), _prim(3, b"\0" + pub)])
+        r = _try(IMPL["parse_asn1"], der)
+        from common import norm
+        if r[0] != "ok" or norm(r[1]) != norm([want]):
+            return "parse_asn1 of the DER of a %s key document (key material %s) returned %r, the document's structure is %r" % (
+                kind, (key if kind == "priv" else pub).hex(), r, [want])
+        return None
+    if op == "wif_decode_seq":
+        ws, mode = a
+        want = [ref_wif_decode(w) for w in ws]
+        r = _try(_i_wif_decode_seq, ws, mode)
+        if any(x is None for x in want):
+            return None if r[0] == "err" else "a sequence containing an invalid WIF string was decoded without error"
+        if r[0] != "ok":
+            return "decoding %d valid WIF strings in a row raised %s" % (len(ws), r[1])
+        for i, (g, x) in enumerate(zip(r[1], want)):
+            if tuple(g) != x:
+                how = "read after the later decodes" if mode == 0 else "after the caller edited the dicts returned earlier"
+                return ("sequence wif_decode(w_0..w_%d, return_dict=True) in one process: the result for w_%d = %r, %s, is %r; "
+                        "wif_decode(w_%d) alone gives %r" % (len(ws) - 1, i, ws[i], how, tuple(g), i, x))
+        return None
     if op == "cli_pubkey":
         cv, data, comp, infmt, outfmt, via = a
         cc = curve(cv)
@@ -1274,7 +1548,7 @@ def prop_oracle(c):
 
 
 ORACLE_OPS = {"point", "is_point", "pubkey", "wif_encode", "wif_decode_full", "pem_encode_key", "cli_pubkey", "cli_wif_encode",
-              "cli_wif_decode"}
+              "cli_wif_decode", "wif_decode_seq", "pem_decode_key", "parse_asn1", "pubkey_from_pem"}
 
 
 def _viol(c, observed, expected, verdict):
@@ -1291,8 +1565,8 @@ def extra_checks(ctx):
     # (1) the literal statement of C14 evaluated on the implementation for the generated inputs
     n = 0
     seen = set()
-    budget = 100000 if T else 5000
-    for c in sorted(cases, key=lambda c: not c["op"].startswith("cli_")):     # the command-line cases first
+    budget = 100000 if T else 7000
+    for c in sorted(cases, key=lambda c: (not c["op"].startswith("cli_"), not ("lookalike" in c["cls"] or "seq" in c["cls"] or "encaps" in c["cls"]))):     # the command-line cases first
         if c["op"] not in ORACLE_OPS:
             continue
         if c["op"] == "point" and c["args"][0] == 0 and c["cls"].startswith("lenbad") and not T and n % 3:
